@@ -29,6 +29,8 @@ CONSTANTS
   AckMode,        \* "any": reader may acknowledge any 0..since frames after consuming one (PROTOCOL.md MAY);
                   \* "shaped": acknowledge exactly when since >= thr (what the code does)
   ThrMode,        \* "fixed": thr = min(cfg.thr, own rwnd, peer rwnd);  "pinned": min(cfg.thr, peer rwnd) (pinned tree, F1)
+  RstMode,        \* "fixed": a stream dropped while the peer may still be sending is answered with Reset even if our
+                  \*   Finish was sent;  "pinned": Reset only if our Finish was not sent (pinned tree, F19)
   EmptyMode       \* "fixed": zero-length writes send nothing, empty inbound Push is skipped by the reader;
                   \* "pinned": zero-length write sends an empty Push and the reader reports EOF (F2)
 
@@ -142,6 +144,21 @@ PeerHandles(s, e, h) ==
 (* does some flow slot still hold the inbound sender of handle h? *)
 SenderAlive(s, e, h) ==
   \E id \in DOMAIN s.slot[e] : s.slot[e][id].k = "Est" /\ s.slot[e][id].h = h /\ s.slot[e][id].rd
+
+(* nothing is in flight and no task has work left: whatever is still open stays as it is unless an application acts *)
+QuietS(s) == \A e \in E : s.outq[e] = <<>> /\ s.wire[e] = <<>> /\ s.drops[e] = <<>> /\ s.rxblk[e].k = "none"
+
+(* a writer that is still open and out of credit has a counterpart that can still grant it credit or tell it to stop:
+   once the peer endpoint has let go of the stream (its slot is gone) and nothing is in flight, this end knows
+   (closedW).  Otherwise the writer waits for ever and, behind a bridge, the local connection is left hanging (C01,
+   F19).  (A writer that still has credit finds out with its next Push, which is answered with Reset.) *)
+NoOrphanWriterS(s) ==
+  (QuietS(s) /\ ~s.confused /\ s.healthy /\ \A e \in E : s.task[e].ph = "run") =>
+     \A e \in E : \A h \in DOMAIN s.hnd[e] :
+        LET x == s.hnd[e][h] IN
+        (x.st # "dropped" /\ ~x.closedW /\ x.credit = 0 /\ x.conn # 0) =>
+           \E id \in DOMAIN s.slot[Peer(e)] :
+              LET sl == s.slot[Peer(e)][id] IN sl.k = "Est" /\ s.hnd[Peer(e)][sl.h].conn = x.conn
 
 (* enqueue a message on the outbound queue (tx_msg_tx.send); fails silently when the receiver is closed *)
 Out(s, e, m) ==
@@ -435,7 +452,10 @@ CloseLocal(s, e, id, sl, inhibit, cause) ==
              s1 == [s EXCEPT !.hnd[e][sl.h].closedW = TRUE, !.hnd[e][sl.h].wreg = FALSE,
                              !.hnd[e][sl.h].rreg = IF sl.rd THEN FALSE ELSE x.rreg,
                              !.hnd[e][sl.h].eof = IF x.eof = "none" /\ sl.rd THEN cause ELSE x.eof]
-             s2 == IF ~x.closedW /\ ~inhibit THEN Out(s1, e, MReset(id, x.conn)) ELSE s1
+             (* the peer must be told unless the stream was closed in both directions: without a Reset its writer
+                would wait for Acknowledge frames that never come *)
+             tell == ~x.closedW \/ (RstMode = "fixed" /\ sl.rd)
+             s2 == IF tell /\ ~inhibit THEN Out(s1, e, MReset(id, x.conn)) ELSE s1
          IN Wake(s2, (IF x.wreg THEN {WakeW(e, sl.h)} ELSE {}) \cup (IF x.rreg /\ sl.rd THEN {WakeR(e, sl.h)} ELSE {}))
     [] sl.k = "Req" ->
          (* rejected by the peer (Reset): the requester retries; connection gone: it sees Closed *)
